@@ -92,6 +92,8 @@ func l1Layouts() [][]metallbv1beta1.IPAddressPool {
 			p.Spec.AutoAssign = &f
 			p.Spec.AllocateTo = &metallbv1beta1.ServiceAllocation{Priority: 5, Namespaces: []string{"ns1"}}
 		}), l1Pool("west", []string{"10.0.1.0/32"}, nil)},
+		{l1Pool("east", []string{"10.0.0.0/31", "fc00::/120"}, func(p *metallbv1beta1.IPAddressPool) { p.Spec.AvoidBuggyIPs = true }), // 7: IPv6 /120 with avoidBuggyIPs (only IPv4 has buggy addresses)
+			l1Pool("west", []string{"10.0.1.0/32"}, nil)},
 	}
 }
 
@@ -138,7 +140,7 @@ func l1Universes(thorough bool) []*l1Universe {
 		mkL1Universe("share", []int{0}, 3, []string{"p443-k1", "p80-k1", "p443-k2", "p80", "p8080-k1-local", "p8081-k1-localb"},
 			[][]string{{"10.0.0.0"}, {"10.0.0.1"}}, nil),
 		// pool reconfiguration, moves between pools, addresses outside every pool, AllocateFromPool
-		mkL1Universe("pools", []int{0, 1, 2, 3, 4, 6}, 2, []string{"p80", "p443-k1", "p80-k1"},
+		mkL1Universe("pools", []int{0, 1, 2, 3, 4, 6, 7}, 2, []string{"p80", "p443-k1", "p80-k1"},
 			[][]string{{"10.0.0.0"}, {"10.0.0.1"}, {"10.0.1.0"}, {"172.16.0.1"}}, []string{"east", "west"}),
 		// dual-stack requests, pairs, families, a pool losing one family
 		mkL1Universe("dual", []int{0, 5, 2}, 2, []string{"p80", "prefer-k1-8443", "require-k1-9000", "p443-k1"},
